@@ -276,3 +276,7 @@ PROPS["C09"] = {
 
 PROPS["C01"]["e2"] += [E("partition_native", "p_parblock", "lemma_partition_native")]
 PROPS["C06"]["e2"] += [E("partition_native", "p_parblock", "lemma_partition_native", tier="thorough")]
+
+PROPS["C05"]["e2"] += [E("uspace_loops", "p_libfs", "lemma_uspace_loops")]
+PROPS["C07"]["e2"] += [E("uspace_loops", "p_libfs", "lemma_uspace_loops")]
+PROPS["C04"]["e2"] += [E("uspace_loops", "p_libfs", "lemma_uspace_loops")]
